@@ -160,6 +160,20 @@ pub fn observe_tab<S: CmdSet>(line: &str, cursor: usize, cap: usize, prompt: usi
         return obs;
     }
     obs.fit = true;
+    // (lines of odd length, word no prefix of `help`:) first a Tab with the *other* command set, which knows no command - it
+    // must leave the line alone, and it may not change what the Tab with the real set does next (each call names its own set)
+    let word = line.trim_matches(' ');
+    if other && !(!word.is_empty() && "help".starts_with(word)) {
+        if let Err(e) = s.byte_other_set(b'\t') {
+            obs.error = Some(format!("process_byte failed: {:?}", e));
+            return obs;
+        }
+        let mid = s.editor();
+        if mid.bytes != line.as_bytes() || mid.cursor != cursor {
+            obs.error = Some(format!("Tab with a command set that knows no command changed the line to {:?} (cursor {})", String::from_utf8_lossy(&mid.bytes), mid.cursor));
+            return obs;
+        }
+    }
     if let Err(e) = feed(&mut s, b"\t") {
         obs.error = Some(e);
         return obs;
